@@ -19,7 +19,8 @@ from . import c01
 
 THEOREMS = ["generated_wf", "conj_square_c64", "conj_square_c128", "even_square_real", "even_absolute_real", "soft_sign_laws",
             "symmetry_analyser_sound", "conj_descs", "conj_imag_descs", "odd_descs", "odd_real_descs", "odd_partial_descs", "abs_descs",
-            "conj_symmetric", "conj_symmetric_imag", "odd_symmetric", "odd_symmetric_real", "odd_partial", "absolute_symmetric"]
+            "conj_symmetric", "conj_symmetric_imag", "odd_symmetric", "odd_symmetric_real", "odd_partial", "absolute_symmetric",
+            "rel_outs_sound", "rot_wf", "rot_descs", "rotation_minus_i", "acosh_descs", "acosh_rotation"]
 SEARCHED = ["conjugate symmetry of the 13 libm-based complex algorithms", "oddness of asin/asinh/atan/atanh (complex, real)", "rotation identities asinh/asin, atan/atanh, acosh/acos",
             "imag acos = -imag asin"]
 TRUSTED = [
@@ -39,8 +40,11 @@ LEVEL_TEXT = ("Partial proof. Theorems (bit-exact softfloat, regenerated program
               "log1p, log2; f(-z) = -f(z) for asin, asinh (complex and real) and for the real part of atan and the imaginary parts of atanh and acos; real part of acosh and "
               "imaginary part of square even — complex64/complex128/float32/float64, for EVERY input whose negated parts are neither NaN nor +-0, every oracle satisfying "
               "LibOK, whenever the evaluations are defined. "
+              "ROTATIONS, for EVERY input with no hypothesis: both sides of an identity are traced as one function (shared subgraphs become shared nodes) and a verified "
+              "node-relation checker (rel_outs_sound, from the node equations of the run) gives asinh(z) = -i asin(iz), atan(z) = -i atanh(iz), acosh(z) = +-i acos(z) by the "
+              "sign of imag z, imag acos = -imag asin, bit for bit (NaN matching NaN). "
               "The remaining identities (undecided components — compensated sums whose exact cancellations the analyser does not follow; inputs with a zero or NaN negated "
-              "part; rotations; acos/asin) are decided by oracle-free bit-pattern search on the generated implementation.")
+              "part) are decided by oracle-free bit-pattern search on the generated implementation.")
 LEVEL_NOTE = "Proved: square/absolute (all inputs); conj symmetry of 9 complex algorithms fully and 5 in the imaginary part; oddness of asin/asinh (complex, real) and of single components of 5 more (non-zero non-NaN negated parts). Search only: the other identities."
 TECHNIQUE = "Lean 4: softfloat sign laws, a verified symmetry analyser (abstract interpretation, soundness theorem) kernel-evaluated on programs regenerated from source; oracle-free bit-pattern search for the rest"
 
@@ -239,6 +243,90 @@ def generate(ctx):
     lines.append("]\n")
     lines.append("end FAVerif.Gen.C03")
     ctx.lean.write_generated("C03.lean", "\n".join(lines) + "\n")
+    generate_rot(ctx)
+    return progs
+
+
+def _trace_combined(fn, dtype):
+    import contextlib
+    import io
+
+    import functional_algorithms as fa
+    from functional_algorithms import algorithms, targets
+
+    with warnings.catch_warnings(), contextlib.redirect_stdout(io.StringIO()):
+        warnings.simplefilter("ignore")
+        c = fa.Context(paths=[algorithms])
+        graph = c.trace(fn, getattr(numpy, dtype))
+        g2 = graph.rewrite(ir.full_expansion_modifier(algorithms))
+        g3 = g2.rewrite(targets.numpy, fa.rewrite)
+        return ir.prog_of_apply(g3, ir.COMPLEX_PART[dtype])
+
+
+# both sides of a rotation identity traced as ONE function of z: the canonical DAG shares what the two sides share
+ROT = {
+    # outs: asinh.re, asinh.im, asin(iz).re, asin(iz).im
+    "rot_asinh": lambda c, z: c.list([c.asinh(z), c.asin(c.complex(-z.imag, z.real))]),
+    # outs: atan.re, atan.im, atanh(iz).re, atanh(iz).im
+    "rot_atan": lambda c, z: c.list([c.atan(z), c.atanh(c.complex(-z.imag, z.real))]),
+    # outs: acosh.re, acosh.im, acos.re, acos.im, asin.re, asin.im
+    "rot_acosh": lambda c, z: c.list([c.acosh(z), c.acos(z), c.asin(z)]),
+}
+
+
+def check_rot(ctx, rot_progs, n=3000):
+    """Tie of the combined programs: each half of a combined program computes, bit for bit, what the separately
+    regenerated program of that function computes (on the rotated input where the identity says so)."""
+    import random
+
+    bad = []
+    for dt in ("complex64", "complex128"):
+        fmt = algs.CDT[dt]
+        p, ew, w = fpx.FMT[fmt]
+        rng = random.Random(f"{ctx.seed}:rot:{dt}")
+        pats = fpx.directed_patterns(rng, fmt, 2 * n) + [0, 1 << (w - 1), ((1 << ew) - 1) << (p - 1), (((1 << ew) - 1) << (p - 1)) | (1 << (w - 1)),
+                                                          (((1 << ew) - 1) << (p - 1)) | 1]
+        xs = [rng.choice(pats) for _ in range(n)]
+        ys = [rng.choice(pats) for _ in range(n)]
+        nys = [neg(b, w) if b != "nan" else b for b in ys]
+
+        def run(prog, a, b):
+            outs = algs.eval_prog_vec(prog, [fpx.arr_from_bits(a, fmt), fpx.arr_from_bits(b, fmt)])
+            return [[ir.canon_bits(v, fmt) for v in fpx.bits_from_arr(numpy.ascontiguousarray(o.astype(fpx.NPF[fmt])), fmt)] for o in outs]
+
+        halves = {"rot_asinh": [("asinh", xs, ys), ("asin", nys, xs)], "rot_atan": [("atan", xs, ys), ("atanh", nys, xs)],
+                  "rot_acosh": [("acosh", xs, ys), ("acos", xs, ys), ("asin", xs, ys)]}
+        for name, parts in halves.items():
+            comb = run(rot_progs[f"{name}_{dt}"], xs, ys)
+            for k, (fn, a, b) in enumerate(parts):
+                sep = run(algs.build(fn, dt)["prog"], a, b)
+                for c in (0, 1):
+                    got, want = comb[2 * k + c], sep[c]
+                    ctx.evaluations += len(xs)
+                    ctx.traces_validated += len(xs)
+                    for i in range(len(xs)):
+                        if got[i] != want[i]:
+                            bad.append(dict(prog=f"{name}_{dt}", half=fn, comp=c, x=xs[i], y=ys[i], combined=got[i], separate=want[i]))
+                            break
+    ctx.obligation("correspondence: each half of a combined (rotation) program == the separately regenerated program of that function, bit for bit", not bad,
+                   kind="correspondence")
+    return bad
+
+
+def generate_rot(ctx):
+    progs = {}
+    for name, fn in ROT.items():
+        for dt in ("complex64", "complex128"):
+            progs[f"{name}_{dt}"] = _trace_combined(fn, dt)
+    lines = ["/- GENERATED by fav/props/c03.py from /repo's current source; do not edit.", "   Combined programs: both sides of a rotation identity traced as one function. -/",
+             "import FAVerif.IR.Prog", "", "namespace FAVerif.Gen.C03Rot", "open FAVerif.IR", ""]
+    for key in sorted(progs):
+        lines.append(ir.prog_to_lean(progs[key], key))
+    lines.append("def all : List (String × Prog) := [")
+    lines.append(",\n".join(f'  ("{k}", {k})' for k in sorted(progs)))
+    lines.append("]\n")
+    lines.append("end FAVerif.Gen.C03Rot")
+    ctx.lean.write_generated("C03Rot.lean", "\n".join(lines) + "\n")
     return progs
 
 
@@ -275,7 +363,11 @@ def run(ctx):
     ctx.rule = ("per dtype: the union of the C01 input streams of asin, atanh, log1p, sqrt, exp (log-uniform, mid-range, +-4 ULP around thresholds, special lattice incl. zeros "
                 "and infinities); every identity evaluated on every point outside its branch-cut exclusion; non-trivial = an identity instance checked; distinct by (identity, input)")
     generate(ctx)
-    broken = ctx.lean_stage(["FAVerif.Props.C03", "FAVerif.Props.C03Sym"], THEOREMS)
+    rot_progs = generate_rot(ctx)
+    broken = ctx.lean_stage(["FAVerif.Props.C03", "FAVerif.Props.C03Sym", "FAVerif.Props.C03Rot"], THEOREMS)
+    rb = check_rot(ctx, rot_progs)
+    for cb in rb[:3]:
+        broken.append(ctx.broken(f"correspondence:combined-program:{cb['prog']}", json.dumps(cb)))
     lb = check_libok(ctx)
     if lb:
         broken.append(ctx.broken("libm-assumption:LibOK", "platform libm violates an assumed parity law: " + json.dumps(lb[:3])))
